@@ -15,6 +15,7 @@ import (
 	"sort"
 	"strings"
 	"sync"
+	"sync/atomic"
 	"time"
 
 	"verifharness/hx"
@@ -44,6 +45,10 @@ const (
 	AExpire
 	ARunt // UDP: a datagram shorter than a DNS header (Tag = its length, 1..11)
 	ASleep // UDP: 1.15 s of real time pass (waiting callers re-send once)
+	AFeedEofReply  // TCP: the last bytes of call C's reply come back from Read together with io.EOF
+	AFeedHoldReply // the reader reads call C's reply, looks up its waiter and is parked before handing it over
+	AFeedHoldStray // the same for a frame with wire id Wid
+	AReaderGo      // the parked reader goes on
 )
 
 type Action struct {
@@ -117,6 +122,14 @@ func (a Action) Coq() string {
 		return hx.App("ARunt", hx.Ni(a.Tag))
 	case ASleep:
 		return "ASleep"
+	case AFeedEofReply:
+		return hx.App("AFeedEof", hx.App("FReply", c, hx.Ni(a.Tag)))
+	case AFeedHoldReply:
+		return hx.App("AFeedHold", hx.App("FReply", c, hx.Ni(a.Tag)))
+	case AFeedHoldStray:
+		return hx.App("AFeedHold", hx.App("FStray", hx.Ni(int(a.Wid)), hx.Ni(a.Tag)))
+	case AReaderGo:
+		return "AReaderGo"
 	}
 	return "?"
 }
@@ -161,6 +174,7 @@ type fakeConn struct {
 	buf      []byte
 	readErr  error
 	closed   bool
+	errWithData bool // deliver readErr together with the bytes that empty the buffer
 	idleRead int // number of times Read was entered with nothing to deliver
 	gated    map[int]bool
 	gates    map[int]chan error
@@ -194,6 +208,9 @@ func (f *fakeConn) Read(p []byte) (int, error) {
 		} else {
 			f.buf = f.buf[n:]
 		}
+		if f.errWithData && len(f.buf) == 0 && f.readErr != nil {
+			return n, f.readErr // as crypto/tls does when close_notify is already behind the data
+		}
 		return n, nil
 	}
 	if f.readErr != nil {
@@ -222,6 +239,15 @@ func (f *fakeConn) waitIdle(n int, d time.Duration) bool {
 func (f *fakeConn) feed(b []byte) {
 	f.mu.Lock()
 	f.buf = append(f.buf, b...)
+	f.cond.Broadcast()
+	f.mu.Unlock()
+}
+
+func (f *fakeConn) feedWithErr(b []byte, err error) {
+	f.mu.Lock()
+	f.buf = append(f.buf, b...)
+	f.readErr = err
+	f.errWithData = true
 	f.cond.Broadcast()
 	f.mu.Unlock()
 }
@@ -369,6 +395,7 @@ const waitReturn = 3 * time.Second
 type View struct {
 	QidForced bool
 	TCP       bool
+	Parked    bool // the reader is parked between lookup and hand-over
 	St        map[int]callState
 	Wid       map[int]uint16
 	Cancel    map[int]bool
@@ -405,6 +432,27 @@ func (v *View) registered(c int) bool { return v.In(c, csInWrite, csHeld, csWait
 // for call c carries c's wire id and that id is not owned by another call; a
 // stray id matches no outstanding query).
 func (v *View) Applicable(a Action) bool {
+	if v.Parked {
+		// the reader holds a frame: nothing else can be read, and closing the connection under it is left
+		// to the schedules without a parked reader
+		switch a.K {
+		case AReaderGo:
+			return true
+		case AReserve, AWithdraw, AStart, ARelease, ACancel, ASetQid:
+		case AWriteEnd:
+			if !a.Ok {
+				return false
+			}
+		default:
+			return false
+		}
+	} else if a.K == AReaderGo {
+		return false
+	}
+	return v.applicable0(a)
+}
+
+func (v *View) applicable0(a Action) bool {
 	widFree := func(w uint16, except int) bool {
 		for c := range v.St {
 			if c != except && v.registered(c) && v.Wid[c] == w {
@@ -434,7 +482,11 @@ func (v *View) Applicable(a Action) bool {
 		// unless the script itself forced the id counter (test hook).
 		_, known := v.Wid[a.C]
 		return v.In(a.C, csDone) && known && (!v.QidForced || widFree(v.Wid[a.C], a.C))
-	case AFeedStray:
+	case AFeedHoldReply:
+		return v.applicable0(Action{K: AFeedReply, C: a.C, Tag: a.Tag})
+	case AFeedEofReply:
+		return v.TCP && v.applicable0(Action{K: AFeedReply, C: a.C, Tag: a.Tag})
+	case AFeedStray, AFeedHoldStray:
 		return !v.Closed && !v.ReadErr && widFree(a.Wid, -1)
 	case AFeedErr, AExpire:
 		return !v.Closed && !v.ReadErr
@@ -495,7 +547,21 @@ func Run(s Script, next func(v *View) *Action) (Script, []Obs, Final) {
 	var expectMu sync.Mutex
 	expectWritten := -1
 	writtenCh := make(chan int, 8)
+	var holdReader atomic.Bool
+	readerParked := make(chan struct{}, 1)
+	var readerRel chan struct{}
+	parked := false
 	verifhook.Set(func(name string) {
+		if name == "tdc.read.lookup" {
+			if holdReader.CompareAndSwap(true, false) {
+				expectMu.Lock()
+				rel := readerRel
+				expectMu.Unlock()
+				readerParked <- struct{}{}
+				<-rel
+			}
+			return
+		}
 		if name != "tdc.exchange.written" {
 			return
 		}
@@ -523,6 +589,11 @@ func Run(s Script, next func(v *View) *Action) (Script, []Obs, Final) {
 	// send after that frame arms the waiting-reply deadline again, so an idle deadline at expiry counts
 	// as F10 only when a frame was read after the last completed send.
 	frameAfterSend := false
+	pendingReplied := -1 // call whose reply the parked reader holds
+	// F10, race form: the reader cleared "waiting for a reply" when it read a frame, a query was sent before it
+	// re-armed the idle deadline, so the flag stays set and later sends do not arm the waiting-reply deadline
+	// either — until the next frame is read.
+	sendWhileParked, staleWaiting := false, false
 	qidForced := false
 	collect := func(o *Obs) {
 		// wait for every call whose return is enabled, then poll the rest
@@ -557,7 +628,7 @@ func Run(s Script, next func(v *View) *Action) (Script, []Obs, Final) {
 	}
 
 	view := func() *View {
-		v := &View{St: map[int]callState{}, Wid: map[int]uint16{}, Cancel: map[int]bool{}, Closed: fc.isClosed(), Steps: len(s.Actions), QidForced: qidForced, TCP: s.TCP}
+		v := &View{St: map[int]callState{}, Wid: map[int]uint16{}, Cancel: map[int]bool{}, Closed: fc.isClosed(), Steps: len(s.Actions), QidForced: qidForced, TCP: s.TCP, Parked: parked}
 		fc.mu.Lock()
 		v.ReadErr = fc.readErr != nil
 		fc.mu.Unlock()
@@ -574,7 +645,10 @@ func Run(s Script, next func(v *View) *Action) (Script, []Obs, Final) {
 		v := view()
 		ap := next(v)
 		if ap == nil {
-			break
+			if !parked {
+				break
+			}
+			ap = &Action{K: AReaderGo} // a script never ends with the reader parked: its hand-over is part of the history
 		}
 		a := *ap
 		if !v.Applicable(a) {
@@ -646,6 +720,9 @@ func Run(s Script, next func(v *View) *Action) (Script, []Obs, Final) {
 				case <-time.After(waitReturn):
 				}
 				frameAfterSend = false
+				if parked {
+					sendWhileParked = true
+				}
 				if a.Hold {
 					cr.st = csHeld
 				} else {
@@ -675,12 +752,70 @@ func Run(s Script, next func(v *View) *Action) (Script, []Obs, Final) {
 			}
 			fc.feed(replyFrame(s.TCP, wid, a.Tag))
 			frameAfterSend = true
+			staleWaiting = false
 			idleSeen++
 			fc.waitIdle(idleSeen, waitReturn)
+		case AFeedHoldReply, AFeedHoldStray:
+			wid := a.Wid
+			if a.K == AFeedHoldReply {
+				wid = cr.wid
+			}
+			expectMu.Lock()
+			readerRel = make(chan struct{})
+			expectMu.Unlock()
+			holdReader.Store(true)
+			fc.feed(replyFrame(s.TCP, wid, a.Tag))
+			frameAfterSend = true
+			staleWaiting = false
+			select {
+			case <-readerParked:
+				parked = true
+			case <-time.After(waitReturn):
+				holdReader.Store(false)
+			}
+			if parked && a.K == AFeedHoldReply {
+				pendingReplied = a.C
+			}
+		case AReaderGo:
+			expectMu.Lock()
+			rel := readerRel
+			expectMu.Unlock()
+			close(rel)
+			parked = false
+			frameAfterSend = true // the reader re-arms the idle deadline now, after whatever was sent meanwhile
+			staleWaiting, sendWhileParked = sendWhileParked, false
+			if pendingReplied >= 0 {
+				if x := calls[pendingReplied]; x != nil && (x.st == csInWrite || x.st == csHeld || x.st == csWaiting) {
+					x.replied = true
+				}
+				pendingReplied = -1
+			}
+			idleSeen++
+			fc.waitIdle(idleSeen, waitReturn)
+		case AFeedEofReply:
+			if cr.st == csInWrite || cr.st == csHeld || cr.st == csWaiting {
+				cr.replied = true
+			}
+			fc.feedWithErr(replyFrame(s.TCP, cr.wid, a.Tag), io.EOF)
+			frameAfterSend = true
+			select {
+			case <-fc.closeCh:
+			case <-time.After(waitReturn):
+			}
 		case ASleep:
 			time.Sleep(1150 * time.Millisecond)
 		case ARunt:
-			fc.feed(make([]byte, a.Tag))
+			rb := make([]byte, a.Tag)
+			if a.Tag >= 2 {
+				// make it look like the start of a reply to somebody who is waiting
+				for _, x := range calls {
+					if x.hasWid && (x.st == csWaiting || x.st == csHeld || x.st == csInWrite) {
+						binary.BigEndian.PutUint16(rb, x.wid)
+						break
+					}
+				}
+			}
+			fc.feed(rb)
 			idleSeen++
 			fc.waitIdle(idleSeen, waitReturn)
 		case AFeedErr:
@@ -691,7 +826,7 @@ func Run(s Script, next func(v *View) *Action) (Script, []Obs, Final) {
 			}
 		case AExpire:
 			o.Code = fc.lastArm()
-			if o.Code == 1 && frameAfterSend {
+			if o.Code == 1 && (frameAfterSend || staleWaiting) {
 				for _, x := range calls {
 					if (x.st == csWaiting || x.st == csHeld) && !x.replied {
 						idleRearm = true
@@ -719,6 +854,16 @@ func Run(s Script, next func(v *View) *Action) (Script, []Obs, Final) {
 		obs = append(obs, o)
 	}
 
+	if parked {
+		// let the reader finish its frame before the final observation
+		expectMu.Lock()
+		rel := readerRel
+		expectMu.Unlock()
+		close(rel)
+		parked = false
+		idleSeen++
+		fc.waitIdle(idleSeen, waitReturn)
+	}
 	// final observation
 	time.Sleep(5 * time.Millisecond)
 	var fin Final
@@ -798,8 +943,13 @@ func classify(c int, r *[]byte, err error) Ret {
 	if err == nil && r != nil {
 		m := new(dns.Msg)
 		if e := m.Unpack(*r); e != nil || len(m.Question) != 1 {
+			// handed to the caller as a success although it is no DNS reply: a reply nobody sent for this call
+			id := 0
+			if len(*r) >= 2 {
+				id = int(binary.BigEndian.Uint16(*r))
+			}
 			pool.ReleaseBuf(r)
-			return Ret{C: c, Kind: 1, A: 9}
+			return Ret{C: c, Kind: 0, A: 888888, B: id}
 		}
 		tag := -1
 		fmt.Sscanf(m.Question[0].Name, "t%d.", &tag)
